@@ -39,6 +39,8 @@ def CALL(f, a): return {"k": "call", "f": f, "a": a}
 def GEN(q, it, elt, cond=None):
     return {"k": "gen", "q": q, "it": it, "elt": elt, "hasif": cond is not None, "cond": cond if cond is not None else C(B(True))}
 def HELPER(f, fields, strs): return {"k": "helper", "f": f, "fields": list(fields), "strs": [[ord(c) for c in s] for s in strs]}
+def SUBSCR(a, i): return {"k": "sub", "a": a, "i": i}
+def IFEXP(c, a, b): return {"k": "ifexp", "c": c, "a": a, "b": b}
 def HASFIELD(f): return {"k": "hasfield", "f": f}
 def TYPED(ty, op, b): return {"k": "typed", "form": "cmp", "ty": ty, "op": op, "b": b}
 def INTYPED(ty, b): return {"k": "typed", "form": "in", "ty": ty, "op": "In", "b": b}
@@ -71,6 +73,8 @@ def src(e):
         if e["f"] == "field_regex":
             return f"field_regex(r, {e['fields']!r}, {strs[0]!r})"
         return f"{e['f']}(r, {e['fields']!r}, {strs!r})"
+    if k == "sub": return f"{src(e['a'])}[{e['i']}]"
+    if k == "ifexp": return f"({src(e['a'])} if {src(e['c'])} else {src(e['b'])})"
     if k == "hasfield": return f"has_field(r, {e['f']!r})"
     if k == "typed":
         if e["form"] == "cmp": return f"(Type.{e['ty']} {OPS[e['op']]} {src(e['b'])})"
@@ -81,7 +85,7 @@ def src(e):
 def supported_interpreted(e):
     """Is the expression inside the documented language of the interpreted engine?"""
     k = e["k"]
-    if k == "neg": return False
+    if k in ("neg", "sub", "ifexp"): return False
     if k == "bin" and e["op"] in BINOPS_UNSUP: return False
     for key in ("a", "b", "c", "it", "elt", "cond"):
         if key in e and isinstance(e[key], dict) and not supported_interpreted(e[key]): return False
@@ -251,13 +255,25 @@ def c07_exprs(rnd, budget):
     right = atoms + [c for c in cmps if c["op"] in ("In", "GtE") and c["a"] in fields and (c["b"] in fields or c["b"] in lists)]
     bools = [BOOL(o, x, y) for o in ("And", "Or") for x in simple for y in right]
     nots = [NOT(x) for x in atoms + [c for c in cmps if c["b"] in fields]]
-    helpers = [HELPER(f, fs, ss) for f in ("field_equals", "field_contains", "field_regex") for fs in (["s"], ["s", "z"], ["n"]) for ss in (["a"], ["AB"], ["b", "a"])]
+    helpers = [HELPER(f, fs, ss) for f in ("field_equals", "field_contains", "field_regex") for fs in (["s"], ["s", "z"], ["n"], ["w", "s"]) for ss in (["a"], ["AB"], ["b", "a"], [""], ["", "q"])]
+    # two generator expressions in ONE expression (same loop variable), under and / or / not
+    g_short = [x for x in gens if x["it"] in (F("l"), F("s")) or x["it"] in lists]
+    gen2 = [BOOL(o, a, b) for o in ("And", "Or") for a in rnd.sample(g_short, 14) for b in rnd.sample(g_short, 14)] + [NOT(BOOL("And", a, b)) for a in rnd.sample(g_short, 8) for b in rnd.sample(g_short, 8)]
+    # forms OUTSIDE the language (subscript, conditional expression): alone, and as direct / nested operands of and / or / not / comparisons / generators
+    unsup_atoms = [CMP("Eq", SUBSCR(F("l"), 0), C(S("a"))), CMP("Eq", SUBSCR(F("s"), 0), C(S("A"))), CMP("Eq", SUBSCR(F("l"), 1), C(S("b"))), CMP("In", SUBSCR(F("s"), 0), F("l")),
+                   CMP("Eq", IFEXP(F("t"), C(I(1)), C(I(0))), C(I(1))), IFEXP(F("t"), CMP("Eq", F("n"), C(I(1))), CMP("Eq", F("s"), C(S("a")))), SUBSCR(F("l"), 0), CMP("Eq", SUBSCR(TUP(C(I(5)), C(I(6))), 1), C(I(6)))]
+    plain_cmps = [CMP("Eq", F("n"), C(I(0))), CMP("Eq", F("n"), C(I(1))), CMP("NotEq", F("s"), C(S(""))), C(B(True)), C(B(False)), F("t")]
+    unsup = list(unsup_atoms)
+    for u in unsup_atoms:
+        unsup += [NOT(u), GEN("any", F("l"), u), GEN("all", LST(C(I(1))), CMP("Eq", V, C(I(1))), u)]
+        for p in plain_cmps:
+            unsup += [BOOL(o, p, u) for o in ("And", "Or")] + [BOOL(o, u, p) for o in ("And", "Or")] + [NOT(BOOL("Or", p, u)), BOOL("And", p, BOOL("Or", p, u))]
     typed = [TYPED(ty, o, b) for ty in ("string", "varint", "boolean") for o in ("Eq", "NotEq", "Lt", "GtE") for b in (C(S("a")), C(S("zz")), C(I(1)), C(I(50)), C(B(True)))] + \
             [INTYPED("string", b) for b in (C(S("a")), C(S("b")), C(S("z")), C(S("")))]
     iph = [CMP(o, F(f), b) for f in ("ip", "p") for o in ("Eq", "NotEq") for b in (C(S("10.0.0.1")), C(S("/a")), C(S("/a/B")), C(NN), C(I(1)))] + \
           [CMP(o, b, F(f)) for f in ("ip", "p") for o in ("Eq", "NotEq") for b in (C(S("10.0.0.1")), C(S("/a")))] + \
           [HELPER("field_equals", fs, ss) for fs in (["ip"], ["p"], ["ip", "s"], ["p", "m"]) for ss in (["10.0.0.1"], ["/a/b"], ["/A"], ["/a", "10.0.0.2"])]
-    groups = {"typed": typed, "ip_path": iph, "cmp": cmps, "bin": [CMP("Eq", b, C(I(2))) for b in bins] + bins, "call": calls, "chain": chains, "gen": gens, "l2cmp": l2, "neg": negs, "bool": bools, "not": nots, "helper": helpers}
+    groups = {"typed": typed, "ip_path": iph, "cmp": cmps, "bin": [CMP("Eq", b, C(I(2))) for b in bins] + bins, "call": calls, "chain": chains, "gen": gens, "l2cmp": l2, "neg": negs, "bool": bools, "not": nots, "helper": helpers, "gen2": gen2, "unsupported": unsup}
     total = sum(len(g) for g in groups.values())
     out = []
     for name, g in groups.items():
